@@ -189,6 +189,157 @@ theorem vti_written_file_roundtrip (d : Dom) (h : Hdr) (vs : List Vec) (fn name 
       rw [← h2]
       exact vti_roundtrip doc hok
 
+/-! ## block vectors -/
+
+/-- CELL data, a block of several vectors, both orientations of the 2-D array `(r, c)` (C order):
+    * `r` a multiple of `nel` : the `c` columns `vec[:, i]` are the vectors;
+    * otherwise, `c` a multiple of `nel` : the `r` rows `vec[i, :]` are the vectors.
+    Array `name(i)` holds exactly column / row `i` of the input, with `len / nel` components. -/
+theorem vti_block_columns (d : Dom) (v : Vec) (r c : Nat) (hs : v.shape = [r, c]) :
+    (r % d.nel = 0 → c > 1 → cellArrs d v = .ok ((List.range c).map fun i =>
+        ⟨v.name ++ (40 :: (natDec i ++ [41])), r / d.nel, ((List.range r).map fun k => word v.words (k * c + i)).flatten⟩)) ∧
+    (r % d.nel ≠ 0 → c % d.nel = 0 → r > 1 → cellArrs d v = .ok ((List.range r).map fun i =>
+        ⟨v.name ++ (40 :: (natDec i ++ [41])), c / d.nel, ((List.range c).map fun k => word v.words (i * c + k)).flatten⟩)) := by
+  constructor
+  · intro h1 h2
+    simp [cellArrs, hs, firstAxis, h1, column, h2]
+  · intro h1 h2 h3
+    simp [cellArrs, hs, firstAxis, h1, h2, column, h3]
+
+/-- POINT data, the same two orientations; names are zero-padded (`name(07)`), and a block of 2-component vectors
+    in a 2-D domain is padded column by column to three components `(u, v, 0)` -/
+theorem vti_block_columns_point (d : Dom) (v : Vec) (r c : Nat) (hs : v.shape = [r, c]) :
+    (r % d.nnodes = 0 → c > 1 → pointArrs d v = .ok ((List.range c).map fun i =>
+        ⟨v.name ++ (40 :: (natDecPad (ceilLog10 c) i ++ [41])),
+         if r / d.nnodes = 2 ∧ d.dim = 2 then 3 else r / d.nnodes,
+         (if r / d.nnodes = 2 ∧ d.dim = 2 then pad2d d.nnodes ((List.range r).map fun k => word v.words (k * c + i))
+          else (List.range r).map fun k => word v.words (k * c + i)).flatten⟩)) ∧
+    (r % d.nnodes ≠ 0 → c % d.nnodes = 0 → r > 1 → pointArrs d v = .ok ((List.range r).map fun i =>
+        ⟨v.name ++ (40 :: (natDecPad (ceilLog10 r) i ++ [41])),
+         if c / d.nnodes = 2 ∧ d.dim = 2 then 3 else c / d.nnodes,
+         (if c / d.nnodes = 2 ∧ d.dim = 2 then pad2d d.nnodes ((List.range c).map fun k => word v.words (i * c + k))
+          else (List.range c).map fun k => word v.words (i * c + k)).flatten⟩)) := by
+  constructor
+  · intro h1 h2
+    simp [pointArrs, hs, firstAxis, h1, column, h2]
+  · intro h1 h2 h3
+    simp [pointArrs, hs, firstAxis, h1, h2, column, h3]
+
+/-- a block holding ONE nodal vector (`(n, 1)` or `(1, n)`) is written under the plain key like the 1-D vector —
+    also with the 2-D padding once the repair `c20_single_block_pad.patch` is in (`singleBlockPadRepaired`);
+    in the unrepaired tree exactly the padded case raises ValueError (see `Core/IO.lean`) -/
+theorem vti_single_block (d : Dom) (v : Vec) (r c : Nat) (hs : v.shape = [r, c])
+    (hax : (r % d.nnodes = 0 ∧ c = 1) ∨ (r % d.nnodes ≠ 0 ∧ c % d.nnodes = 0 ∧ r = 1))
+    (hfix : singleBlockPadRepaired = true ∨ ¬ ((r * c) / d.nnodes = 2 ∧ d.dim = 2)) :
+    pointArrs d v = .ok [⟨v.name, if (r * c) / d.nnodes = 2 ∧ d.dim = 2 then 3 else (r * c) / d.nnodes,
+      (if (r * c) / d.nnodes = 2 ∧ d.dim = 2 then pad2d d.nnodes v.words else v.words).flatten⟩] := by
+  rcases hax with ⟨h1, rfl⟩ | ⟨h1, h2, rfl⟩
+  · rcases hfix with hf | hf
+    · by_cases hp : (r * 1) / d.nnodes = 2 ∧ d.dim = 2
+      · have hp' : r / d.nnodes = 2 ∧ d.dim = 2 := by simpa using hp
+        simp [pointArrs, hs, firstAxis, h1, hf, hp']
+      · have hp' : ¬ (r / d.nnodes = 2 ∧ d.dim = 2) := by simpa using hp
+        simp [pointArrs, hs, firstAxis, h1, hp']
+    · have hp' : ¬ (r / d.nnodes = 2 ∧ d.dim = 2) := by simpa using hf
+      simp [pointArrs, hs, firstAxis, h1, hp']
+  · rcases hfix with hf | hf
+    · by_cases hp : (1 * c) / d.nnodes = 2 ∧ d.dim = 2
+      · have hp' : c / d.nnodes = 2 ∧ d.dim = 2 := by simpa using hp
+        simp [pointArrs, hs, firstAxis, h1, h2, hf, hp']
+      · have hp' : ¬ (c / d.nnodes = 2 ∧ d.dim = 2) := by simpa using hp
+        simp [pointArrs, hs, firstAxis, h1, h2, hp']
+    · have hp' : ¬ (c / d.nnodes = 2 ∧ d.dim = 2) := by simpa using hf
+      simp [pointArrs, hs, firstAxis, h1, h2, hp']
+
+/-- every array a classified vector contributes (1-D or block) is in the section of the written document -/
+theorem vti_cell_arrays_written (d : Dom) (h : Hdr) (vs : List Vec) (r : VtiResult) (hr : buildDoc d h vs = .ok r)
+    (v : Vec) (hv : v ∈ vs) (hcl : classify d v.size = .cell) :
+    ∃ doc as av, r.doc = some doc ∧ doc.cell = some as ∧ cellArrs d v = .ok av ∧ ∀ a ∈ av, a ∈ as := by
+  have hmem : v ∈ cellsOf d vs := by simp [cellsOf, hv, hcl]
+  have hne : (cellsOf d vs).isEmpty = false := by
+    cases hh : cellsOf d vs with
+    | nil => rw [hh] at hmem; simp at hmem
+    | cons => rfl
+  cases hdoc : r.doc with
+  | none =>
+    have := (buildDoc_none d h vs r hr hdoc).2
+    rw [hne] at this; cases this
+  | some doc =>
+    obtain ⟨_, _, _, hcell, _⟩ := buildDoc_ok d h vs r doc hr hdoc
+    rw [hne] at hcell
+    simp only [Bool.false_eq_true, if_false] at hcell
+    obtain ⟨as, h1, h2⟩ := hcell
+    obtain ⟨av, h3, h4⟩ := collect_ok_mem _ _ as h2 v hmem
+    exact ⟨doc, as, av, rfl, h1, h3, h4⟩
+
+theorem vti_point_arrays_written (d : Dom) (h : Hdr) (vs : List Vec) (r : VtiResult) (hr : buildDoc d h vs = .ok r)
+    (v : Vec) (hv : v ∈ vs) (hcl : classify d v.size = .point) :
+    ∃ doc as av, r.doc = some doc ∧ doc.point = some as ∧ pointArrs d v = .ok av ∧ ∀ a ∈ av, a ∈ as := by
+  have hmem : v ∈ pointsOf d vs := by simp [pointsOf, hv, hcl]
+  have hne : (pointsOf d vs).isEmpty = false := by
+    cases hh : pointsOf d vs with
+    | nil => rw [hh] at hmem; simp at hmem
+    | cons => rfl
+  cases hdoc : r.doc with
+  | none =>
+    have := (buildDoc_none d h vs r hr hdoc).1
+    rw [hne] at this; cases this
+  | some doc =>
+    obtain ⟨_, _, hcell, _, _⟩ := buildDoc_ok d h vs r doc hr hdoc
+    rw [hne] at hcell
+    simp only [Bool.false_eq_true, if_false] at hcell
+    obtain ⟨as, h1, h2⟩ := hcell
+    obtain ⟨av, h3, h4⟩ := collect_ok_mem _ _ as h2 v hmem
+    exact ⟨doc, as, av, rfl, h1, h3, h4⟩
+
+-- 2×2 elements (nel 4): a (2, 4) block holds two vectors as ROWS, a (4, 3) block three vectors as COLUMNS
+example : cellArrs ⟨2, 2, 0⟩ ⟨bytes! "s", [2, 4], (List.range 8).map fun i => [i.toUInt8, 0, 0, 0]⟩
+    = .ok [⟨bytes! "s(0)", 1, [0, 0, 0, 0, 1, 0, 0, 0, 2, 0, 0, 0, 3, 0, 0, 0]⟩,
+           ⟨bytes! "s(1)", 1, [4, 0, 0, 0, 5, 0, 0, 0, 6, 0, 0, 0, 7, 0, 0, 0]⟩] := by rfl
+example : cellArrs ⟨2, 2, 0⟩ ⟨bytes! "s", [4, 3], (List.range 12).map fun i => [i.toUInt8, 0, 0, 0]⟩
+    = .ok [⟨bytes! "s(0)", 1, [0, 0, 0, 0, 3, 0, 0, 0, 6, 0, 0, 0, 9, 0, 0, 0]⟩,
+           ⟨bytes! "s(1)", 1, [1, 0, 0, 0, 4, 0, 0, 0, 7, 0, 0, 0, 10, 0, 0, 0]⟩,
+           ⟨bytes! "s(2)", 1, [2, 0, 0, 0, 5, 0, 0, 0, 8, 0, 0, 0, 11, 0, 0, 0]⟩] := by rfl
+
+/-! ## header numbers and file names -/
+
+/-- the numbers of the header parse back: for ANY number formatter / parser pair satisfying the contract
+    (`parse (fmt x) = x`, and `fmt` emits neither blank nor quote), the file of a document whose origin and
+    spacing texts are `fmt` of six numbers parses to a document from which `parse` recovers these numbers,
+    and the extent is the domain's -/
+theorem vti_header_numbers {α : Type} (fmt : α → Bytes) (parse : Bytes → Option α)
+    (hrt : ∀ x, parse (fmt x) = some x) (hok : ∀ x, TokOK (fmt x))
+    (doc : Doc) (o1 o2 o3 s1 s2 s3 : α)
+    (ho : doc.ox = fmt o1 ∧ doc.oy = fmt o2 ∧ doc.oz = fmt o3) (hsp : doc.dx = fmt s1 ∧ doc.dy = fmt s2 ∧ doc.dz = fmt s3)
+    (hp : ∀ a ∈ doc.point.getD [], ArrOK a) (hc : ∀ a ∈ doc.cell.getD [], ArrOK a) :
+    ∃ doc', parseVti (renderVti doc) = some doc' ∧
+      (doc'.nelx, doc'.nely, doc'.nelz) = (doc.nelx, doc.nely, doc.nelz) ∧
+      (parse doc'.ox, parse doc'.oy, parse doc'.oz) = (some o1, some o2, some o3) ∧
+      (parse doc'.dx, parse doc'.dy, parse doc'.dz) = (some s1, some s2, some s3) := by
+  obtain ⟨a1, a2, a3⟩ := ho
+  obtain ⟨b1, b2, b3⟩ := hsp
+  have hd : DocOK doc := ⟨a1 ▸ hok o1, a2 ▸ hok o2, a3 ▸ hok o3, b1 ▸ hok s1, b2 ▸ hok s2, b3 ▸ hok s3, hp, hc⟩
+  refine ⟨doc, vti_roundtrip doc hd, rfl, ?_, ?_⟩
+  · rw [a1, a2, a3, hrt, hrt, hrt]
+  · rw [b1, b2, b3, hrt, hrt, hrt]
+
+/-- `WriteToVTI`, numbered mode: different iterations get different file names — both the name `WriteToVTI`
+    computes and the name `write_to_vti` finally opens (after its `.vti` rule) -/
+theorem vti_iteration_names_distinct (saveto : Bytes) (i j : Nat) :
+    (iterName saveto false i = iterName saveto false j → i = j) ∧
+    (vtiFilename (iterName saveto false i) = vtiFilename (iterName saveto false j) → i = j) :=
+  ⟨iterName_inj saveto i j, finalName_inj saveto i j⟩
+
+/-- overwrite mode: one and the same name in every iteration, namely `saveto` put together again -/
+theorem vti_overwrite_one_name (saveto : Bytes) (i j : Nat) :
+    iterName saveto true i = iterName saveto true j ∧
+    iterName saveto true i = (splitext saveto).1 ++ (splitext saveto).2 := ⟨rfl, rfl⟩
+
+example : iterName (bytes! "run/out.vti") false 7 = bytes! "run/out.0007.vti"
+    ∧ iterName (bytes! "run/out.vti") false 12345 = bytes! "run/out.12345.vti"
+    ∧ iterName (bytes! "run/out.vti") true 7 = bytes! "run/out.vti"
+    ∧ vtiFilename (iterName (bytes! "res") false 3) = bytes! "res.0003.vti" := by decide
+
 /-! ## the log of `ScalarToFile` -/
 
 /-- splitting a joined row at the separator gives back the tokens, under the contract of the number
@@ -296,6 +447,19 @@ theorem scalarfile_roundtrip (sep : Bytes) (hsep : sep ≠ []) (hnl : (10 : UInt
         · rw [e]; simp
         · exact ih (k + 1) l hm
     exact this 0 _ l hm
+
+/-- the logged values parse back: for any formatter / parser pair with `parse (fmt x) = x`, row `i` is the
+    iteration number `i` followed by the texts of the values of call `i`, and parsing these texts gives the values -/
+theorem scalarfile_values_parse_back {α : Type} (fmt : α → Bytes) (parse : Bytes → Option α)
+    (hrt : ∀ x, parse (fmt x) = some x) (calls : List (List Bytes × List α)) (i : Nat) (hi : i < calls.length) :
+    (rowsFrom 0 (calls.map fun c => (c.1, c.2.map fmt)))[i]'(by rw [rowsFrom_length]; simpa using hi)
+        = natDec i :: (calls[i].2.map fmt) ∧
+      parseDec (natDec i) = some i ∧
+      (calls[i].2.map fmt).map parse = calls[i].2.map some := by
+  obtain ⟨h1, h2⟩ := scalarfile_rows (calls.map fun c => (c.1, c.2.map fmt)) i (by simpa using hi)
+  refine ⟨by simpa using h1, h2, ?_⟩
+  rw [List.map_map]
+  exact List.map_congr_left (fun a _ => hrt a)
 
 /-- the contract is satisfiable: tab-separated, two calls, an old file is replaced -/
 example : parseLog [9] ((logRun [9] ⟨0, some (bytes! "old")⟩
